@@ -65,6 +65,8 @@ pub fn request_with(method: &str, target: &str, body: &str, range: Option<&str>)
 pub struct Site {
     pub scratch: PathBuf,
     pub root: PathBuf,
+    /// the tree with large log-like files (rebuilt as such after a violation)
+    pub big: bool,
 }
 
 pub fn build_site(tag: &str) -> Site {
@@ -81,7 +83,21 @@ pub fn build_site(tag: &str) -> Site {
     std::fs::write(scratch.join("sentinel.txt"), b"parent sentinel").unwrap();
     // a built-in page name that is a dangling link to a place outside the root
     let _ = std::os::unix::fs::symlink("../sibling/created-through-link.svg", root.join("favicon.svg"));
-    Site { scratch, root }
+    Site { scratch, root, big: false }
+}
+
+pub const BIG_NAMES: &[&str] = &["out.txt", "nohup.out", "rws.log", "access.log", "error.log", "rws.out"];
+pub fn build_big_site(tag: &str) -> Site {
+    let scratch = crate::tree::scratch_root(tag);
+    let root = scratch.join("root");
+    std::fs::create_dir_all(&root).unwrap();
+    std::fs::write(root.join("file.txt"), b"0123456789").unwrap();
+    let big = vec![b'l'; (8 << 20) + 1];
+    for n in BIG_NAMES {
+        std::fs::write(root.join(n), &big).unwrap();
+    }
+    std::fs::write(scratch.join("sentinel.txt"), b"parent sentinel").unwrap();
+    Site { scratch, root, big: true }
 }
 
 fn diff(a: &BTreeMap<String, String>, b: &BTreeMap<String, String>) -> Vec<String> {
@@ -158,6 +174,25 @@ fn step(entry: Entry, m: &str, t: &str, b: &str) -> Value {
     json!({"entry": entry.name(), "method": m, "target": t, "body": b})
 }
 
+/// the classes of the steps, runs of equal ones written once with their length
+fn steps_signature(steps: &[Value]) -> String {
+    let mut out: Vec<(String, usize)> = Vec::new();
+    for c in steps.iter().map(class_of_step) {
+        match out.last_mut() {
+            Some((last, n)) if *last == c => *n += 1,
+            _ => out.push((c, 1)),
+        }
+    }
+    if out.len() > 6 {
+        // a long alternating history: name its distinct classes and its length
+        let mut kinds: Vec<String> = out.iter().map(|(c, _)| c.clone()).collect();
+        kinds.sort();
+        kinds.dedup();
+        return format!("{} requests of {{{}}}", steps.len(), kinds.join(", "));
+    }
+    out.iter().map(|(c, n)| if *n > 1 { format!("{} x{}", c, n) } else { c.clone() }).collect::<Vec<_>>().join(" ; ")
+}
+
 fn class_of_step(s: &Value) -> String {
     if s.get("case").is_some() {
         return format!("corpus:{}", s["case"]["family"].as_str().unwrap_or(""));
@@ -203,12 +238,12 @@ pub fn run(ctx: &mut Ctx) {
         } else {
             ctx.outcome("modified");
             let steps = hist.as_array().cloned().unwrap_or_default();
-            let sig = format!("C13:{}:{}", kind_of(&d), steps.iter().map(class_of_step).collect::<Vec<_>>().join(" ; "));
+            let sig = format!("C13:{}:{}", kind_of(&d), steps_signature(&steps));
             ctx.fail(&sig, || json!({"history": hist}), d.join("; "));
             // restore the tree
             std::env::set_current_dir("/").unwrap();
             let _ = std::fs::remove_dir_all(&site.scratch);
-            *site = build_site("c13");
+            *site = if site.big { build_big_site("c13big") } else { build_site("c13") };
             std::env::set_current_dir(&site.root).unwrap();
         }
     };
@@ -266,6 +301,24 @@ pub fn run(ctx: &mut Ctx) {
             }
         }
     }
+    // long histories on a tree with large files under names a server might think are its own
+    // (redirected output, logs): counters that wrap after 256 requests, size thresholds
+    {
+        std::env::set_current_dir("/").unwrap();
+        let mut big = build_big_site("c13big");
+        std::env::set_current_dir(&big.root).unwrap();
+        ctx.bound("long_histories", json!({"tree": BIG_NAMES, "file_size": "8 MiB + 1", "histories": "300 and 600 x GET /file.txt; 300 x GET /missing; 300 x alternating GET / HEAD / OPTIONS"}));
+        for entry in [Entry::Process, Entry::Legacy] {
+            let rep = |m: &str, t: &str, n: usize| -> Value { Value::Array((0..n).map(|_| step(entry, m, t, "none")).collect()) };
+            judge(ctx, &mut big, rep("GET", "/file.txt", 300));
+            judge(ctx, &mut big, rep("GET", "/file.txt", 600));
+            judge(ctx, &mut big, rep("GET", "/missing", 300));
+            judge(ctx, &mut big, Value::Array((0..300).map(|i| step(entry, ["GET", "HEAD", "OPTIONS"][i % 3], "/file.txt", "none")).collect()));
+        }
+        std::env::set_current_dir("/").unwrap();
+        let _ = std::fs::remove_dir_all(&big.scratch);
+        std::env::set_current_dir(&site.root).unwrap();
+    }
     // the C04 corpus, one request per history
     corpus::for_each_opt(thorough, thorough, &mut |case| {
         if (case.family == "header-lines" && case.request_size > 100_000) || case.family == "many-ranges" {
@@ -279,9 +332,9 @@ pub fn run(ctx: &mut Ctx) {
 
 pub fn replay(v: &Value) -> Vec<Failure> {
     drive::default_config();
-    let site = build_site("c13r");
-    std::env::set_current_dir(&site.root).unwrap();
     let hist = v["history"].clone();
+    let site = if hist.as_array().map(|a| a.len() >= 300).unwrap_or(false) { build_big_site("c13rbig") } else { build_site("c13r") };
+    std::env::set_current_dir(&site.root).unwrap();
     let d = run_history(&site, &hist);
     std::env::set_current_dir("/").unwrap();
     let _ = std::fs::remove_dir_all(&site.scratch);
@@ -289,5 +342,5 @@ pub fn replay(v: &Value) -> Vec<Failure> {
         return vec![];
     }
     let steps = hist.as_array().cloned().unwrap_or_default();
-    vec![Failure { signature: format!("C13:{}:{}", kind_of(&d), steps.iter().map(class_of_step).collect::<Vec<_>>().join(" ; ")), case: v.clone(), detail: d.join("; "), hash: 0 }]
+    vec![Failure { signature: format!("C13:{}:{}", kind_of(&d), steps_signature(&steps)), case: v.clone(), detail: d.join("; "), hash: 0 }]
 }
